@@ -146,6 +146,14 @@ Fixpoint count_d (d : dnode) : Z :=
   end.
 Definition count_c (c : content) : Z := count_d (DCont c).
 
+(** schemas as the harness dumps them: the row of a list is a container over the list's kids *)
+Fixpoint wf_schema (s : snode) : bool :=
+  match s with
+  | SLeaf _ _ _ _ => true
+  | SCont _ kids => forallb wf_schema kids
+  | SList _ _ row => (match row with SCont _ _ => true | _ => false end) && wf_schema row
+  end.
+
 (** * what a read with parsed parameters [P] must deliver *)
 Definition spec_read (P : option params) (kids : list snode) (data : content) : pres content :=
   match P with
